@@ -27,12 +27,23 @@ def replay(pk, ty):
     rejected = 'error (typer)' in txt or 'error (lower)' in txt or 'error:' in txt
     return (not rejected), 'goml `%s`: %s' % (src.replace('\n', ' | '), 'rejected: ' + txt[:120] if rejected else 'accepted without a type diagnostic' + (' and the compiler then panics' if 'panicked' in txt else ''))
 
-def ob_pattern_types(r, tier, seed):
+def replay_panic(pk, ty, lit):
+    text = PATS[pk][1] if lit is None else lit + PATS[pk][1][1:]
+    src = 'fn f(x: %s) -> int32 { match x { %s => 1, _ => 2 } }\nfn main() -> unit { () }\n' % (goml_ty(ty), text)
+    d = tempfile.mkdtemp(prefix='vf-c04p-')
+    try:
+        open(os.path.join(d, 'main.gom'), 'w').write(src)
+        p = subprocess.run([build.compiler_bin(), 'run', '--dump-tast', os.path.join(d, 'main.gom')], capture_output=True, text=True, timeout=60)
+    finally: shutil.rmtree(d, ignore_errors=True)
+    txt = p.stdout + p.stderr
+    return 'panicked' in txt, 'goml `%s`: exit %d, %s' % (src.replace('\n', ' | '), p.returncode, ('the compiler panics: ' + txt[txt.find('panicked'):][:160].replace('\n', ' ')) if 'panicked' in txt else 'no panic: ' + txt[:120].replace('\n', ' '))
+
+def ob_pattern_types(r, tier, seed, int_lits=('1',), nopanic_only=False):
     W = e2.fresh_world(CRATES); tt = W.tt
     TY = tt.find_adt(['tast', 'Ty'], 'compiler'); HP = [a for a in tt.by_name['Pat'] if a.crate == 'compiler' and 'hir' in '::'.join(a.path)][0]
     TP = tt.find_adt(['tast', 'Pat'], 'compiler'); TYPER = tt.find_adt(['typer', 'Typer'], 'compiler'); CO = [a for a in tt.by_name['Constraint'] if a.crate == 'compiler'][0]
     DI = tt.find_adt(['diagnostics', 'Diagnostics'], 'diagnostics')
-    r.bounds = 'every literal pattern kind %s against every scalar type %s' % (sorted(PATS), TYS)
+    r.bounds = 'every literal pattern kind %s against every scalar type %s' % (sorted(PATS), TYS) + ('' if len(int_lits) == 1 else '; integer patterns with each of the digit strings %s' % list(int_lits))
     r.assumptions = ['HirTable::pat returns the chosen pattern; TypeckResultsBuilder recording and the local environment are stubbed (not part of the obligation)',
                      'oracle: when the literal\'s own type differs from the type of the matched value, check_pat must push a TypeEqual constraint relating the two (the solver then reports the mismatch) or report a diagnostic itself']
     cur = {}
@@ -57,7 +68,11 @@ def ob_pattern_types(r, tier, seed):
         fields = []
         for fn_, fty in v.fields:
             if pk == 'PBool': fields.append(True)
-            else: fields.append(mkstr('a' if pk == 'PString' else '1'))
+            elif pk == 'PString': fields.append(mkstr('a'))
+            else:
+                lt = ex.choose([(True, x) for x in int_lits]) if len(int_lits) > 1 else int_lits[0]
+                fields.append(mkstr(lt)); ex.notes['lit'] = lt
+        ex.notes['w'] = (pk, ty, ex.notes.get('lit'))
         cur['pat'] = Agg(HP.key, HP.vindex(pk), fields)
         typer = Agg(TYPER.key, 0, [{'uni': c03m.UTable(), 'constraints': PyVec([]), 'hir_table': Opaque('hir_table'), 'results': Opaque('results')}[f[0]] for f in TYPER.variants[0].fields])
         h = {0: typer, 1: Opaque('genv'), 2: Opaque('local_env'), 3: Agg(DI.key, 0, [PyVec([])]), 4: Agg(TY.key, TY.vindex(ty), [])}
@@ -73,8 +88,11 @@ def ob_pattern_types(r, tier, seed):
     found = {}
     for p in res:
         r.cases += 1
-        if p.kind != 'ok': found.setdefault('panic', ('check_pat panics: %s' % p.value, None)); continue
+        if p.kind != 'ok':
+            w_ = (p.notes or {}).get('w')
+            found.setdefault('panic', ('check_pat panics on the pattern %s: %s' % (w_, p.value), ('panic', w_))); continue
         pk, ty, eqs, ndiag, pty = p.value
+        if nopanic_only: r.nontrivial += 1; continue
         lit = PATS[pk][0]
         if pk == 'PInt': lit = ty if ty in INTS else 'TInt32'
         if lit is None or lit == ty or ndiag: r.nontrivial += 1; continue
@@ -84,6 +102,10 @@ def ob_pattern_types(r, tier, seed):
         elif len(r.samples) < 3: r.samples.append({'pattern': PATS[pk][1], 'against': goml_ty(ty), 'constraint': list(eqs[0])})
     for key, (what, w) in found.items():
         ok_, detail = True, 'constraints read from the Typer value after the real check_pat MIR'
+        if w is not None and w[0] == 'panic':
+            try: ok_, detail = replay_panic(*w[1])
+            except Exception as e: ok_, detail = False, 'replay failed: %s' % str(e)[:200]
+            r.findings.append(Finding(key, what, {'pattern': list(w[1])}, ok_, detail)); continue
         if w is not None:
             try: ok_, detail = replay(*w)
             except Exception as e: ok_, detail = False, 'replay failed: %s' % str(e)[:200]
@@ -478,7 +500,13 @@ def ob_array_nopanic(r, tier, seed):
     """O4.7: same exploration as O3.7; only the panic findings count under C04"""
     ob_array_check(r, tier, seed)
     r.findings = [f for f in r.findings if f.key.startswith('panic')]
-def obligations_c04():
+BOUNDARY_LITS = ('0', '7', '127', '128', '255', '256', '32767', '32768', '65535', '65536', '2147483647', '2147483648', '4294967295', '4294967296', '9223372036854775807', '9223372036854775808',
+                 '18446744073709551615', '18446744073709551616', '340282366920938463463374607431768211455', '340282366920938463463374607431768211456', '00', '007')
+def ob_int_pattern_nopanic(r, tier, seed):
+    ob_pattern_types(r, tier, seed, int_lits=BOUNDARY_LITS, nopanic_only=True)
+    r.assumptions = list(r.assumptions) + ['only panics count here (C04); the typing verdicts are O3.4']
+
+def _obligations_c04_a():
     return [Ob('O4.7-array-literal-nopanic', 'type checking array literals of 0..2 items never panics', ob_array_nopanic, ('quick', 'thorough'), 3, {})]
 
 # ----------------------------------------------------------------------------- O3.8 a call of a trait method on a trait object checks the remaining arguments against the method signature
@@ -558,3 +586,6 @@ def ob_dyn_call_args(r, tier, seed):
 _obs37 = obligations
 def obligations():
     return _obs37() + [Ob('O3.8-dyn-call-arguments', 'the arguments of a trait-object method call are checked against the method signature', ob_dyn_call_args, ('quick', 'thorough'), 3, {})]
+
+def obligations_c04():
+    return _obligations_c04_a() + [Ob('O4.8-int-pattern-nopanic', 'type checking an integer literal pattern of any magnitude against any scalar type never panics', ob_int_pattern_nopanic, ('quick', 'thorough'), 5, {})]
